@@ -228,6 +228,45 @@ func buildObjPool(size int) *objPool {
 			p.add(geojson.NewLineString(ln), "LineString", ln)
 		}
 	}
+	// objects read from documents with "bbox" members (the six-number 3D form, a
+	// box that is too small, one that is elsewhere) and third ordinates: as far
+	// as geometry goes a foreign member; each answers as the plain object.
+	// Also Features built by NewFeature whose members happen to look like the
+	// Circle convention: a constructor-built Feature answers as its geometry.
+	{
+		must := func(doc string, opts *geojson.ParseOptions) geojson.Object {
+			o, err := geojson.Parse(doc, opts)
+			if err != nil {
+				panic(err)
+			}
+			return o
+		}
+		sqc, sqz := `[[[-1,-1],[1,-1],[1,1],[-1,1],[-1,-1]]]`, `[[[-1,-1,2],[1,-1,4],[1,1,8],[-1,1,4],[-1,-1,2]]]`
+		lnc, lnz := `[[-1,-1],[1,1]]`, `[[-1,-1,2],[1,1,8]]`
+		plainSq := p.add(must(`{"type":"Polygon","coordinates":`+sqc+`}`, nil), "Polygon", nil)
+		plainLn := p.add(must(`{"type":"LineString","coordinates":`+lnc+`}`, nil), "LineString", nil)
+		for _, b := range []string{`[-1,-1,2,1,1,8]`, `[-1,-1,0,0]`, `[100,100,101,101]`, `[1,-1,-1,1]`} {
+			a := p.add(must(`{"type":"Polygon","bbox":`+b+`,"coordinates":`+sqz+`}`, nil), "Polygon", nil)
+			p.equiv(a, plainSq)
+			fa := p.add(must(`{"type":"Feature","bbox":`+b+`,"geometry":{"type":"Polygon","coordinates":`+sqz+`},"properties":{}}`, nil), "Feature", nil)
+			p.equiv(fa, plainSq)
+			l := p.add(must(`{"type":"LineString","bbox":`+b+`,"coordinates":`+lnz+`}`, nil), "LineString", nil)
+			p.equiv(l, plainLn)
+			fc := must(`{"type":"FeatureCollection","bbox":`+b+`,"features":[{"type":"Feature","bbox":`+b+`,"geometry":{"type":"Polygon","coordinates":`+sqz+`},"properties":{}}]}`, &geojson.ParseOptions{IndexChildren: 1, IndexGeometry: 64, IndexGeometryKind: geometry.QuadTree})
+			fci := p.add(fc, "FeatureCollection", nil)
+			plainFC := p.add(must(`{"type":"FeatureCollection","features":[{"type":"Feature","geometry":{"type":"Polygon","coordinates":`+sqc+`},"properties":{}}]}`, nil), "FeatureCollection", nil)
+			p.equiv(fci, plainFC)
+		}
+		for _, q := range []geometry.Point{{X: 0, Y: 0}, {X: 1, Y: 1}} {
+			base := p.add(geojson.NewPoint(q), "Point", q)
+			for _, m := range []string{`{"properties":{"type":"Circle","radius":150000,"radius_units":"m"}}`, `{"id":7,"properties":{"type":"Circle","radius":150,"radius_units":"km"}}`} {
+				f1 := p.add(geojson.NewFeature(geojson.NewPoint(q), m), "Feature", nil)
+				p.equiv(f1, base)
+				f2 := p.add(geojson.NewFeature(geojson.NewSimplePoint(q), m), "Feature", nil)
+				p.equiv(f2, base)
+			}
+		}
+	}
 	// points carrying more than x,y: a third ordinate (two different values at
 	// the same position), a parsed position with z and m, a point with a
 	// foreign member. Predicates are planar: each answers as the plain point.
